@@ -152,7 +152,9 @@ class Gen14:
         if k == "removeIdx":
             if n == 0:
                 return ("add", self.reac())
-            return (k, rng.randrange(n))
+            i_ = rng.randrange(n)
+            # (Python's convention for a position counted from the end: -1 takes back the reaction added last)
+            return (k, NegIdx(i_ - n, i_) if rng.random() < 0.3 else i_)
         if k == "removeIdxs":
             idxs = sorted(rng.sample(range(n), rng.randint(0, min(n, 3)))) if n else []
             if idxs and rng.random() < 0.4:       # positions collected from several searches: unordered, one of them found twice
@@ -203,6 +205,14 @@ def apply_impl(net, op, objs):
         net.required_species = list(a)
 
 
+class NegIdx(int):
+    """a negative list position together with the non-negative position it denotes (what the model is told)"""
+    def __new__(cls, neg, pos):
+        o = super().__new__(cls, neg)
+        o.pos = pos
+        return o
+
+
 def op_json(op, ids):
     k, a = op
     enc = lambda r: [r["uid"], [ids[canon(s)] for s in r["re"]], [ids[canon(s)] for s in r["pr"]], r["eqk"]]
@@ -210,7 +220,9 @@ def op_json(op, ids):
         return [k, enc(a)]
     if k == "addMany":
         return [k, [enc(r) for r in a]]
-    if k in ("removeIdx", "removeIdxs"):
+    if k == "removeIdx":
+        return [k, getattr(a, "pos", a)]
+    if k == "removeIdxs":
         return [k, a]
     if k == "removeInst":
         return [k, a["eqk"]]
@@ -406,6 +418,9 @@ def check_extend_cli(chk):
         if n == 0:      # depletion followed by desorption of the species it created, always
             deplete, desorb, keep, remove = True, ["thermal", "cosmic-ray"], [], []
             args = "in.naunet out.naunet --append-depletion" + (" --remove-duplicate" if dedup else "")
+        if n == 4:      # reduced to a species list (here: every species present) and then extended: the list restricts the input only
+            deplete, desorb, keep, remove = True, ["thermal"], list(present), []
+            args = f"in.naunet out.naunet --reduce-by-species={','.join(keep)}" + (" --remove-duplicate" if dedup else "") + " --append-depletion"
         if n == 3:      # two species removed that occur together in one reaction (its position is found twice)
             both = next(([a_.name, b_.name] for r in reacs for a_ in r.re + r.pr for b_ in r.re + r.pr if a_.name != b_.name), None)
             if both:
@@ -627,6 +642,10 @@ def run_c15(argv):
         # reported indices are positions in the network's own reaction list
         [R([], [], 100), R(["H", "CO"], ["HCO"], 100), R(["C", "O"], ["CO"], 100), R([], [], 100), R(["CO", "H"], ["HCO"], 100),
          R(["C", "O"], ["CO"], 100)],
+        # ices of one molecule on two grain populations (#1…, #2…) are different species: reactions that differ in the population only
+        # are no repeats of each other
+        [R(["#1H", "#1CO"], ["#1HCO"], 100), R(["#2H", "#2CO"], ["#2HCO"], 100), R(["#1CO", "#1H"], ["#1HCO"], 100), R(["#2CO"], ["CO"], 100),
+         R(["#1CO"], ["CO"], 100), R(["#2CO"], ["CO"], 100)],
         # windows that differ in the first decimal only (2.7 K / 2.0 K, 10.5 K / 10.0 K): different reactions in every mode that
         # looks at the window, the printed form included (it prints one decimal)
         [R(["H", "CO"], ["HCO"], 100, 10.0, 300.0), R(["CO", "H"], ["HCO"], 100, 10.5, 300.0), R(["H", "CO"], ["HCO"], 100, 10.0, 300.0),
